@@ -98,7 +98,8 @@ fn tet_op(s: &crate::p3::shape::Tetrahedron, op: &str, a: &mut Args) -> String {
         "dist" => { let p = d3::p(a); let so = a.b(); ff(s.distance_to_local_point(&p, so)) }
         "cont" => { let p = d3::p(a); b(s.contains_local_point(&p)).into() }
         "feat" => { let p = d3::p(a); let (pp, f) = s.project_local_point_and_get_feature(&p); format!("{} {}", o3::fpp(&pp), ffeat3(f)) }
-        _ => "nofn".into(),
+        // the trait's default methods on top of the location form: proj, maxd, wproj, wdist, wcont
+        _ => o3::op(s, op, a),
     }));
     r.unwrap_or_else(|_| "panic".into())
 }
@@ -469,6 +470,18 @@ pub fn gen(r: &mut Rng, thorough: bool) -> Vec<(String, String)> {
             o.v.push(("tet_cont".into(), format!("{} {}", sargs, d3::hp(&p))));
             o.v.push(("tet_dist".into(), format!("{} {} {}", sargs, d3::hp(&p), if r.bool() { "1" } else { "0" })));
             o.v.push(("tet_feat".into(), format!("{} {}", sargs, d3::hp(&p))));
+            // default methods (fu5): bounded and posed forms; the posed point is the image of the same local point
+            let so = if r.bool() { "1" } else { "0" };
+            let ext = (ab.norm()).max(ac.norm()).max(ad.norm());
+            let md = if lat { *r.pick(&[0.0, 0.25, 0.5, 1.0, 2.0]) * ext } else { r.uniform(0.0, 2.0 * ext) };
+            o.v.push(("tet_proj".into(), format!("{} {} {}", sargs, d3::hp(&p), so)));
+            o.v.push(("tet_maxd".into(), format!("{} {} {} {}", sargs, d3::hp(&p), so, hx(md))));
+            let m = d3::gen_iso(r, lat, 100.0);
+            let w = m * p;
+            let mh = d3::hiso(&m);
+            o.v.push(("tet_wproj".into(), format!("{} {} {} {}", sargs, mh, d3::hp(&w), so)));
+            o.v.push(("tet_wdist".into(), format!("{} {} {} {}", sargs, mh, d3::hp(&w), if r.bool() { "1" } else { "0" })));
+            o.v.push(("tet_wcont".into(), format!("{} {} {}", sargs, mh, d3::hp(&w))));
         }
     }
     // ---- structured Voronoi sweep (triangles): one lattice + one random pass (quick), ten of each (thorough)
